@@ -20,11 +20,11 @@ func init() {
 	core.Register(&core.Prop{
 		ID:    "C05",
 		Level: "exploration",
-		Rule: "batches of type-1/type-2 requests handed to the generic batch issuer after crossing the wire (client Marshal -> BatchedTokenRequest.Unmarshal): every sequence of length 1..3 (quick) / 1..4 (thorough) over 8 request kinds " +
-			"{type1 key A, type1 key A', type1 unknown key id, type1 malformed element (A), type1 malformed element (A'), type2 key B, type2 unknown key id, type2 malformed element} under 5 issuer configurations ({A}, {B}, {A,A',B}, and two with an always-refusing issuer of the same type and truncated key id registered before / after the real one), plus seeded sequences of length 5..40. " +
+		Rule: "batches of type-1/type-2 requests handed to the generic batch issuer after crossing the wire (client Marshal -> BatchedTokenRequest.Unmarshal) or, every third batch, handed over in memory (where malformed elements may also be shorter than an element, empty, nil or a short view into longer storage): every sequence of length 1..3 (quick) / 1..4 (thorough) over 8 request kinds " +
+			"{type1 key A, type1 key A', type1 unknown key id, type1 malformed element (A), type1 malformed element (A'), type2 key B, type2 unknown key id, type2 malformed element} under 5 issuer configurations ({A}, {B}, {A,A',B}, and two with an always-refusing issuer of the same type and truncated key id registered before / after the real one), plus seeded sequences of length 5..40 and large batches of 63..128 requests (response lists around the 16384-byte varint boundary). " +
 			"Oracle = executable model: entry i present iff some configured issuer has the request's type and last key-id byte and its own Evaluate of that request succeeds; the output decodes, has exactly n entries in order, present entries finalize under state i to a token valid under that issuer's key (circl FullEvaluate / rsa.VerifyPSS), absent ones are empty; the succeeding requests alone give an all-present batch. " +
 			"distinct_nontrivial = distinct (configuration, kind sequence) batches containing at least one failing and one succeeding request",
-		Floors:      []string{"batches_checked", "entries_present_valid", "entries_absent", "mixed_batches", "all_failing_batches", "all_succeeding_batches", "isolation_rechecked"},
+		Floors:      []string{"batches_checked", "entries_present_valid", "entries_absent", "mixed_batches", "all_failing_batches", "all_succeeding_batches", "isolation_rechecked", "large_batches", "batches_handed_over_in_memory"},
 		Assumptions: []string{"configured issuers of one type have pairwise different last key-id bytes and unknown keys differ from all of them (truncated-id collisions are outside the statement)"},
 		Run:         runC05,
 	})
@@ -123,7 +123,7 @@ func (w *c05World) setup() {
 	w.cfgNames = []string{"{A}", "{B}", "{A,A',B}", "{refuse(A),A,refuse(B),B}", "{A,refuse(A),B,refuse(B),refuse(A')}"}
 }
 
-func (w *c05World) mkReq(kind c05Kind, r *core.Rand) *c05Req {
+func (w *c05World) mkReq(kind c05Kind, r *core.Rand, inMemory bool) *c05Req {
 	chal, nonce := r.Bytes(r.IntN(40)), r.Bytes(32)
 	q := &c05Req{kind: kind, nonce: nonce, chal: chal}
 	switch kind {
@@ -142,7 +142,19 @@ func (w *c05World) mkReq(kind c05Kind, r *core.Rand) *c05Req {
 		if kind == k1Abad || kind == k1Apbad {
 			// a fresh object: the encoding cache of the honest one must not leak through
 			bad := r.Bytes(49)
-			switch r.IntN(3) {
+			variant := r.IntN(3)
+			if inMemory {
+				variant = r.IntN(7)
+			}
+			switch variant {
+			case 3: // shorter than an element (cannot cross the wire, but a caller can hand it in)
+				bad = r.Bytes(20)
+			case 4:
+				bad = []byte{}
+			case 5:
+				bad = nil
+			case 6: // a short view into the honest element's storage
+				bad = req.BlindedReq[:20]
 			case 0:
 				bad[0] = 0x05
 			case 1:
@@ -173,6 +185,9 @@ func (w *c05World) mkReq(kind c05Kind, r *core.Rand) *c05Req {
 		req := st.Request()
 		if kind == k2Bbad {
 			bad := bytes.Repeat([]byte{0xff}, 256) // >= N
+			if inMemory && r.Coin(2) {
+				bad = r.Bytes(r.Of(0, 100, 255, 257))
+			}
 			req = &type2.BasicPublicTokenRequest{TokenKeyID: req.TokenKeyID, BlindedReq: bad}
 		}
 		q.req, q.typ, q.keyID = req, 2, iss.TokenKeyID()
@@ -184,7 +199,7 @@ func (w *c05World) mkReq(kind c05Kind, r *core.Rand) *c05Req {
 }
 
 // expected runs the model: is entry i present under this configuration?
-func c05Expected(cfg []batched.Issuer, q *c05Req) bool {
+func c05Expected(cfg []batched.Issuer, q *c05Req, inMemory bool) bool {
 	for _, is := range cfg {
 		if is.Type() != q.typ {
 			continue
@@ -195,6 +210,16 @@ func c05Expected(cfg []batched.Issuer, q *c05Req) bool {
 		}
 		// its own Evaluate, called separately on a fresh decode of the same request
 		var fresh tokens.TokenRequest
+		if inMemory {
+			if pan, _, _ := core.Guard(func() {
+				if _, err := is.Evaluate(q.req); err == nil {
+					fresh = q.req
+				}
+			}); !pan && fresh != nil {
+				return true
+			}
+			continue
+		}
 		if q.typ == 1 {
 			o := new(type1.BasicPrivateTokenRequest)
 			if !o.Unmarshal(q.req.Marshal()) {
@@ -215,14 +240,14 @@ func c05Expected(cfg []batched.Issuer, q *c05Req) bool {
 	return false
 }
 
-func (w *c05World) runBatch(ci int, kinds []c05Kind, r *core.Rand, recheck bool) {
+func (w *c05World) runBatch(ci int, kinds []c05Kind, r *core.Rand, recheck bool, inMemory bool) {
 	c := w.c
 	cfg := w.configs[ci]
 	reqs := make([]*c05Req, len(kinds))
 	var list []tokens.TokenRequestWithDetails
 	name := w.cfgNames[ci] + ":"
 	for i, k := range kinds {
-		reqs[i] = w.mkReq(k, r)
+		reqs[i] = w.mkReq(k, r, inMemory)
 		list = append(list, reqs[i].req)
 		name += fmt.Sprintf("%d", int(k))
 	}
@@ -238,12 +263,18 @@ func (w *c05World) runBatch(ci int, kinds []c05Kind, r *core.Rand, recheck bool)
 			bad("create-error", "CreateTokenRequest failed: "+err.Error())
 			return
 		}
-		wire := clone(br.Marshal())
-		d["request"] = core.Hex(wire)
-		dec := new(batched.BatchedTokenRequest)
-		if !dec.Unmarshal(wire) {
-			bad("request-undecodable", "the batch decoder rejected the client's batch")
-			return
+		dec := br
+		if inMemory {
+			d["in_memory"] = true
+			c.Class("batches_handed_over_in_memory")
+		} else {
+			wire := clone(br.Marshal())
+			d["request"] = core.Hex(wire)
+			dec = new(batched.BatchedTokenRequest)
+			if !dec.Unmarshal(wire) {
+				bad("request-undecodable", "the batch decoder rejected the client's batch")
+				return
+			}
 		}
 		out, err := batched.NewBasicBatchedIssuer(cfg...).EvaluateBatch(dec)
 		if err != nil {
@@ -264,7 +295,7 @@ func (w *c05World) runBatch(ci int, kinds []c05Kind, r *core.Rand, recheck bool)
 		var okList []tokens.TokenRequestWithDetails
 		var okIdx []int
 		for i, q := range reqs {
-			exp := c05Expected(cfg, q)
+			exp := c05Expected(cfg, q, inMemory)
 			got := len(entries[i]) > 0
 			d["index"], d["kind"] = i, c05KindNames[q.kind]
 			if exp != got {
@@ -374,7 +405,7 @@ func runC05(c *core.Ctx) {
 					kinds[i] = c05Kind(y % int(c05NKinds))
 					y /= int(c05NKinds)
 				}
-				w.runBatch(ci, kinds, c.CaseRng(), l <= 3)
+				w.runBatch(ci, kinds, c.CaseRng(), l <= 3, x%3 == 1)
 				if x == total/2 {
 					c.Sample("exhaustive batch", map[string]any{"configuration": w.cfgNames[ci], "kinds": kindNames(kinds)})
 				}
@@ -382,6 +413,22 @@ func runC05(c *core.Ctx) {
 		}
 	}
 	c.Exhaustive(fmt.Sprintf("all request-kind sequences of length 1..%d over 8 kinds under 5 issuer configurations", maxLen))
+	// large batches: the response list crosses the 2-byte varint boundary (16384 bytes) at 64 type-2 entries
+	for bi, size := range []int{63, 64, 65, 100, 127, 128} {
+		if !c.Next() {
+			continue
+		}
+		r := c.CaseRng()
+		kinds := make([]c05Kind, size)
+		for j := range kinds {
+			kinds[j] = k2B
+			if bi%2 == 1 && j%17 == 3 {
+				kinds[j] = c05Kind(r.IntN(int(c05NKinds)))
+			}
+		}
+		w.runBatch(2, kinds, r, false, false)
+		c.Class("large_batches")
+	}
 	n := c.Pick(300, 12000)
 	for i := 0; i < n; i++ {
 		if !c.Next() {
@@ -396,7 +443,7 @@ func runC05(c *core.Ctx) {
 		for j := range kinds {
 			kinds[j] = c05Kind(r.IntN(int(c05NKinds)))
 		}
-		w.runBatch(i%len(w.configs), kinds, r, i%4 == 0)
+		w.runBatch(i%len(w.configs), kinds, r, i%4 == 0, i%3 == 1)
 		if i < 2 {
 			c.Sample("seeded batch", map[string]any{"configuration": w.cfgNames[i%len(w.configs)], "kinds": kindNames(kinds)})
 		}
